@@ -333,7 +333,21 @@ def o_diff(case):
             rdr = RTCMReader(SocketWrapper(sock, bufsize=case["bufsize"], **kw), quitonerror=case["qoe"], labelmsm=case["labelmsm"], validate=val)
         else:
             rdr = RTCMReader(sock, quitonerror=case["qoe"], labelmsm=case["labelmsm"], bufsize=case["bufsize"], validate=val, **kw)
-        got = [(raw, pub(p)) for raw, p in rdr]
+        if case.get("handover"):
+            # the application reads a few messages, then builds a second reader over the stream the first one holds
+            # (reader.datastream) - e.g. to go on with other options: what the first one had received is not lost
+            got = []
+            it = iter(rdr)
+            for _ in range(case["handover"]):
+                try:
+                    raw, p = next(it)
+                except StopIteration:
+                    break
+                got.append((raw, pub(p)))
+            rdr2 = RTCMReader(rdr.datastream, quitonerror=case["qoe"], labelmsm=case["labelmsm"], validate=val, **({} if case.get("prewrap") else {"bufsize": case["bufsize"]}))
+            got += [(raw, pub(p)) for raw, p in rdr2]
+        else:
+            got = [(raw, pub(p)) for raw, p in rdr]
     finally:
         sock.close()
     if [r for r, _ in got] != [r for r, _ in ref]:
@@ -345,6 +359,8 @@ def o_diff(case):
         cls.append("item-aligned-to-bufsize")
     if case.get("repeated"):
         cls.append("highly-compressible-chunk")
+    if case.get("handover"):
+        cls.append("second-reader-over-the-first-one's-datastream")
     if case["bufsize"] > 1 and len(case["cuts"]) >= 2 and all(c % case["bufsize"] == 0 for c in case["cuts"]):
         cls.append("every-receive-fills-the-buffer")
     off = 0
@@ -387,6 +403,8 @@ def s_diff(draw, tier):
     else:
         cuts = draw(streams.partitions(n))
     extra["validate"] = draw(st.sampled_from([1, 1, 0]))
+    if "enc" not in extra and draw(st.integers(0, 3)) == 0:
+        extra["handover"] = draw(st.integers(1, 3))
     return {**extra, "items": items, "cuts": cuts, "bufsize": bufsize, "qoe": draw(st.sampled_from([0, 1])), "labelmsm": draw(st.sampled_from([1, 2]))}
 
 
